@@ -63,10 +63,18 @@ func VerifC19_ProtocolServer() {
 		b := append(verifLE64(uint64(16+len(body))), verifLE64(typ)...)
 		return append(b, body...)
 	}
+	// the first message: a proper HELLO, or a HELLO whose body is shorter / longer than the 8 flag bytes
 	in := msg(CaProtocolHello, verifLE64(CaProtocolPullChunks))
+	hl := []int{8, 0, 1, 7, 9, 16}[vChoose("hello-body-length", 6)]
+	if hl != 8 {
+		in = msg(CaProtocolHello, vBytes("hello-body", hl))
+	}
 	types := []uint64{CaProtocolRequest, CaProtocolAbort, CaProtocolGoodbye, CaProtocolChunk, CaProtocolMissing, CaProtocolHello, 0x1234}
 	lens := []int{0, 1, 7, 8, 9, 39, 40, 41}
 	nmsg := 1 + vChoose("messages", 2)
+	if hl != 8 {
+		nmsg = 0 // the handshake is the subject
+	}
 	for k := 0; k < nmsg; k++ {
 		typ := types[vChoose("message-type", len(types))]
 		in = append(in, msg(typ, vBytes("body", lens[vChoose("body-length", len(lens))]))...)
